@@ -621,6 +621,8 @@ pub fn c16(tier: Tier) -> i32 {
     let names_inelig = [
         "a.SOL", "a.Sol", "a.sOL", "a.t.sol", "a.T.sol", "a.t.Sol", "a.T.SOL", "asol", "sol", ".t.sol", "a.sol.txt", "a.solx", "a.t.sol.bak", "a.txt", "README.md", "solstat_report.md", "naïve.md", "é.json",
         "日本語メモ.txt", "a.sol~", "A.T.Sol", "Überprüfung.t.sol", "Solstat.toml", "solstat.toml", ".gitignore", "foundry.toml",
+        // digit runs beyond u64 / non-ASCII numerals (a name-ordering helper would parse them)
+        "115792089237316195423570985008687907853269984665640564039457584007913129639935.json", "area-m\u{b2}.csv", "\u{663}.txt", "\u{bd}.md", "2024-01-01_18446744073709551616.log",
     ];
     let names_elig = ["a.sol", ".sol", "t.sol", "é.sol", "a b.sol", "tt.sol", "at.sol", "x.y.sol"];
     for n in names_inelig {
@@ -635,7 +637,10 @@ pub fn c16(tier: Tier) -> i32 {
     }
     const NARROW_TOML: &[u8] = b"path = './nowhere'\noptimizations = [\"sstore\"]\nvulnerabilities = []\nqa = []\n";
     let contents_inelig: [&[u8]; 5] = [SRC_PQ.as_bytes(), b"", GARBAGE, NON_UTF8, NARROW_TOML];
-    let contents_elig: [&[u8]; 3] = [SRC_P.as_bytes(), SRC_PQ.as_bytes(), b""];
+    // an eligible file without a version pragma that imports ineligible neighbours by name (`a.t.sol`, `a.txt`, ...): what
+    // those files contain must not reach its verdicts
+    const SRC_IMPORTER: &str = "import \"./a.t.sol\";\nimport \"./a.txt\";\nimport {X} from \"./a.T.sol\";\nimport \"./README.md\";\nimport \"../d1/a.t.sol\";\ncontract Imp {\n  using SafeMath for uint256;\n  function f(uint256 a, bool c) public payable returns (uint256) {\n    require(c, \"a revert string that is longer than thirty-two bytes\");\n    return a.add(1);\n  }\n}\n";
+    let contents_elig: [&[u8]; 4] = [SRC_P.as_bytes(), SRC_PQ.as_bytes(), b"", SRC_IMPORTER.as_bytes()];
     let mut inelig: Vec<Entry> = Vec::new();
     for n in names_inelig {
         for c in contents_inelig {
@@ -644,9 +649,9 @@ pub fn c16(tier: Tier) -> i32 {
     }
     let mut elig: Vec<Entry> = Vec::new();
     for (i, n) in names_elig.iter().enumerate() {
-        elig.push(file(n, contents_elig[i % 3]));
+        elig.push(file(n, contents_elig[i % 4]));
         if tier == Tier::Thorough {
-            elig.push(file(n, contents_elig[(i + 1) % 3]));
+            elig.push(file(n, contents_elig[(i + 1) % 4]));
         }
     }
     // trees: [ineligible], [eligible], [eligible, ineligible], [ineligible, ineligible'], at depth 0..2
@@ -733,7 +738,8 @@ pub fn c16(tier: Tier) -> i32 {
         run.machinery(format!("tree generator produced {} trees with a repeated name in one directory", before - trees.len()));
     }
     let sel = Selection {
-        opts: vec![opt::str_to_optimization("solidity_math"), opt::str_to_optimization("optimal_comparison")],
+        // incl. the version-gated patterns: their verdict depends on a directive, which must be the analysed file's own
+        opts: ["solidity_math", "optimal_comparison", "safe_math_pre_080", "safe_math_post_080", "string_errors", "short_revert_string", "payable_function"].iter().map(|n| opt::str_to_optimization(n)).collect(),
         vulns: vec![vul::str_to_vulnerability("floating_pragma"), vul::str_to_vulnerability("unsafe_erc20_operation")],
         qas: vec![qa::str_to_qa("constructor_order"), qa::str_to_qa("private_vars_leading_underscore")],
     };
